@@ -188,6 +188,8 @@ def run(res):
     for dgr in mon.get("DISAGREE", [])[:2]:
         violations.append(("the real verifiers (vls-core compute_shared_hmac, storage-client compute_shared_hmac, "
                            "ExternalPersistHelper) disagree whether a tag authenticates an input", dgr))
+    for f in mon.get("FORGERY", [])[:2]:
+        violations.append(("check_hmac accepts a malformed tag (%s) for a record list" % f["what"], f))
     if stats.get("honest_rejected"):
         machinery.append(("an unmodified value / record list was rejected by the real functions", {"count": stats["honest_rejected"]}))
 
